@@ -17,7 +17,27 @@ from .frontend import REPO, PKG, AnalysisError
 
 def _load_variants():
     from .variants import VARIANTS
-    return VARIANTS
+    return list(VARIANTS) + seeded_variants()
+
+
+def seeded_variants():
+    """the independently written breaking changes kept under /verif/seeded/, as fire-variants for the rules that caught
+    them when they were filed (meta.json: expected_rules)"""
+    import json
+    base = os.path.join(os.path.dirname(os.path.dirname(os.path.abspath(__file__))), "seeded")
+    out = []
+    if not os.path.isdir(base):
+        return out
+    for d in sorted(os.listdir(base)):
+        mp = os.path.join(base, d, "meta.json")
+        if not os.path.exists(mp):
+            continue
+        meta = json.load(open(mp))
+        rules = meta.get("expected_rules") or []
+        if meta.get("confirmed") and rules:
+            out.append(dict(name=f"seeded {d} ({meta.get('breaks_property')})", rules=rules, edits=[],
+                            patch=os.path.join(base, d, "patch.diff"), names=[], expect="fires"))
+    return out
 
 
 def apply_edits(root, edits):
@@ -44,6 +64,11 @@ def run_variant(v, repo=None):
         err = apply_edits(tmp, v["edits"])
         if err:
             return v["name"], "skip", err
+        if v.get("patch"):
+            import subprocess
+            p = subprocess.run(["git", "apply", "-p1", v["patch"]], cwd=tmp, capture_output=True, text=True)
+            if p.returncode != 0:
+                return v["name"], "skip", "patch no longer applies: " + p.stderr.strip()[:120]
         base = Engine(repo)
         mut = Engine(tmp)
         new, und = [], []
